@@ -899,7 +899,7 @@ def correspond(ctx):
     # ITS OWN stored specification even when the definition was replaced meanwhile (stream defupdate, real engine)
     from vlib import par
     if not os.environ.get('C14_SKIP_DEFUPDATE'):      # measurement knob only (CPU accounting of the sequential part)
-        par.run_parallel(ctx, 'harness.defupdate_stream', 'run_chunk', [{'n_cases': ctx.n(5, 120)}] * 14)
+        par.run_parallel(ctx, 'harness.defupdate_stream', 'run_chunk', [{'n_cases': ctx.n(5, 60)}] * 14)
     st = env()
     from harness import schema_stream as S
     S.install(st)              # records every (spec class, data) the real parsers / services validate
